@@ -52,6 +52,10 @@ class Ctx:
         self.current_case: Any = None
         self.t0 = time.time()
         self.replaying = False
+        # interleaved other uses of the library (vf.gen.disturb), switched on per check by enable_disturb()
+        self._disturb_pt = None
+        self._disturb_rate = 0.0
+        self._disturb_rng = random.Random(f'disturb/{prop}/{seed}/{shard}/{nshards}')
 
     # ------------------------------------------------------------------
     def mine(self, i: int) -> bool:
@@ -66,7 +70,19 @@ class Ctx:
         base, rem = divmod(total, self.nshards)
         return base + (1 if self.shard < rem else 0)
 
+    def enable_disturb(self, pt, rate: float = 0.03) -> None:
+        """From now on a share of the cases is preceded by one other legitimate use of the library (failed parse, FASTA
+        read, unresolvable mass request, ... see vf.gen.disturb) made under Engine.suspend(); own random stream, so the
+        workload's case sequence is the same with and without it."""
+        self._disturb_pt = pt
+        self._disturb_rate = rate
+
     def begin(self, case: Any) -> None:
+        if self._disturb_rate and not self.replaying and self._disturb_rng.random() < self._disturb_rate:
+            from vf.gen.disturb import disturb
+            kind = disturb(self._disturb_rng, self._disturb_pt, self.eng)
+            d = self.extra.setdefault('interleaved_other_calls', {})
+            d[kind] = d.get(kind, 0) + 1
         self.current_case = case
         self.cases += 1
 
